@@ -44,7 +44,7 @@ type cred struct {
 }
 
 type event struct {
-	Op    string `json:"op"` // set | del | abn (abandoned set: prepared, never committed)
+	Op    string `json:"op"` // set | del | abn (abandoned set: prepared, never committed); two-phase search: prep | commit | del
 	NS    string `json:"ns"`
 	Users []cred `json:"users,omitempty"`
 }
@@ -53,12 +53,18 @@ func (e event) String() string {
 	if e.Op == "del" {
 		return "del(" + e.NS + ")"
 	}
+	if e.Op == "commit" {
+		return "commit(" + e.NS + ")"
+	}
 	var p []string
 	for _, c := range e.Users {
 		p = append(p, fmt.Sprintf("%q/%q", c.User, c.Pw))
 	}
 	if e.Op == "abn" {
 		return "abandoned_set(" + e.NS + ": " + strings.Join(p, ", ") + ")"
+	}
+	if e.Op == "prep" {
+		return "prepare(" + e.NS + ": " + strings.Join(p, ", ") + ")"
 	}
 	return "set(" + e.NS + ": " + strings.Join(p, ", ") + ")"
 }
@@ -445,6 +451,9 @@ func enabled(lists [][]cred, thorough bool) func(hist []event) []event {
 
 type kase struct {
 	History []event `json:"history"`
+	// two-phase search only
+	Mode string            `json:"mode,omitempty"`
+	Init map[string][]cred `json:"initial_configuration,omitempty"`
 }
 
 // replayBoth replays hist on fresh objects. everyStep: evaluate the oracle after every event
@@ -504,7 +513,11 @@ func main() {
 	var k kase
 	if r.ReplayCase(&k) {
 		stale := 0
-		if _, v := replayBoth(k.History, true, true, &stale); v != nil {
+		if k.Mode == "two_phase" {
+			if _, v, _ := tpReplay(k.Init, k.History, true); v != nil {
+				r.Violation(ev.Witness{Summary: v.msg, Features: v.features, Case: k})
+			}
+		} else if _, v := replayBoth(k.History, true, true, &stale); v != nil {
 			r.Violation(ev.Witness{Summary: v.msg, Features: v.features, Case: k})
 		}
 		r.Set("states", 1)
@@ -535,9 +548,14 @@ func main() {
 		}
 		doneStale <- true
 	}()
-	searchStart := time.Now()
 	var states, transitions int64
 	perSearch := map[string]interface{}{}
+	// two-phase search on the real Manager first (small, and the one that sees the protocol)
+	tpStates, tpTransitions, tpInfo := twoPhaseSearch(r, time.Duration(r.Pick(15, 240))*time.Second)
+	states += tpStates
+	transitions += tpTransitions
+	perSearch["manager_two_phase"] = tpInfo
+	searchStart := time.Now()
 	for _, sr := range searches {
 		lists, maxDepth := sr.lists, sr.depth
 		spec := xstate.Spec[event]{
@@ -580,7 +598,8 @@ func main() {
 		}
 		st := xstate.BFS(spec)
 		if st.Capped {
-			r.Capped(fmt.Sprintf("search %s stopped by the time budget at depth %d (all shallower levels complete)", sr.name, st.MaxDepth))
+			capNotes = append(capNotes, fmt.Sprintf("search %s stopped by the time budget at depth %d (all shallower levels complete)", sr.name, st.MaxDepth))
+			r.Capped(strings.Join(capNotes, "; "))
 		}
 		states += st.States
 		transitions += st.Transitions
@@ -597,7 +616,7 @@ func main() {
 	r.Sample(kase{History: []event{{Op: "set", NS: "A", Users: []cred{{"u", "p"}}}, {Op: "set", NS: "B", Users: []cred{{"u", "p:q"}}}, {Op: "del", NS: "B"}}})
 	r.Sample(kase{History: []event{{Op: "set", NS: "A", Users: []cred{{"u:", ":"}}}, {Op: "set", NS: "A", Users: []cred{{"v", "q"}}}}})
 	r.Sample(kase{History: []event{{Op: "set", NS: "A", Users: []cred{{"u", "p"}}}, {Op: "set", NS: "B", Users: []cred{{"u", "q"}}}, {Op: "abn", NS: "B", Users: []cred{{"u", "p:q"}}}, {Op: "set", NS: "A", Users: []cred{{"u", "p"}}}}})
-	r.Set("rule", "BFS over histories of set(ns, user list) [prepare+commit] / abn(ns, user list) [abandoned set: the standby generation is built by clone+rebuild / ReloadNamespacePrepare and never committed; the reference does not change and credentials are checked on the generation that is live] / del(ns), ns in {A,B,C}, user lists of one user to depth 4 (thorough: depth 5, plus a second search with one- and two-user lists to depth 3) over names {u, v, 'u:'} x passwords {p, q, 'p:q', ':', 'p:'}; an event is enabled only if no other namespace holds the same user+password; states are deduplicated on the canonical content of UserManager.users / userNamespaces plus the reference state; every transition is executed on fresh real objects and followed by the oracle over all 15 pairs + 7 probe pairs.")
+	r.Set("rule", "Search 1 (manager_two_phase): BFS over histories of prep(ns, users) / commit(ns) / del(ns), ns in {A,B}, users {u,v} x passwords {p,q}, on the real Manager (ReloadNamespacePrepare, ReloadNamespaceCommit - accepted or refused by Gaea -, DeleteNamespace) from 4 initial configurations, depth 4 (thorough 5), so that operations on different namespaces interleave between a prepare and its commit; reference: committed configuration = last accepted commit / initial, removed by del; credentials checked through Session.handleHandshakeResponse + IsAllowConnect after every transition. Searches 2..: BFS over histories of set(ns, user list) [prepare+commit] / abn(ns, user list) [abandoned set: the standby generation is built by clone+rebuild / ReloadNamespacePrepare and never committed; the reference does not change and credentials are checked on the generation that is live] / del(ns), ns in {A,B,C}, user lists of one user to depth 4 (thorough: depth 5, plus a second search with one- and two-user lists to depth 3) over names {u, v, 'u:'} x passwords {p, q, 'p:q', ':', 'p:'}; an event is enabled only if no other namespace holds the same user+password; states are deduplicated on the canonical content of UserManager.users / userNamespaces plus the reference state; every transition is executed on fresh real objects and followed by the oracle over all 15 pairs + 7 probe pairs.")
 	r.Assume("a pair whose password check passes but for which GetNamespaceByUser returns \"\" does not authenticate: handleHandshakeResponse binds namespace \"\" and IsAllowConnect refuses the connection (counted as stale_password_entries_seen)")
 	pprof.StopCPUProfile()
 	r.Assume("the control plane keeps user+password unique across namespaces and user names unique inside a namespace (cc checkForDuplicateUsernameAndPassword, models verifyUsers)")
